@@ -408,9 +408,30 @@ def r10_13(run, model):
         raise AnalysisIncomplete("go_literal_from_primitive: float32 branch not found")
 
 
+def r10_14(run, model):
+    run.rule("R10.14", "string_get returns the byte it names: the runtime helper does not convert the indexed byte with Go's integer-to-string "
+                       "conversion `string(s[i])` (that yields the UTF-8 encoding of the code point with the byte's value: two bytes from "
+                       "0x80 on), so a string rebuilt from its string_get pieces equals the original")
+    RT = "crates/compiler/src/go/runtime.rs"
+    f = model.fn("string_get", RT)
+    t = S.norm_ws(run.facts.text(RT, f.body["sp"]))
+    conv = [c for c in S.walk(f.body) if c["k"] == "Struct" and c["segs"][-1] == "Call"
+            and re.search(r'name:"string"\.to_string\(\)', S.norm_ws(run.facts.text(RT, c["sp"])))]
+    direct = False
+    for c in conv:
+        args = next((fl["expr"] for fl in c["fields"] if fl["name"] == "args"), None)
+        if args is not None:
+            at = S.norm_ws(run.facts.text(RT, args["sp"]))
+            direct = direct or re.match(r"vec!\[goast::Expr::Index\{", at) is not None
+    run.ob("R10.14", "string_get|the indexed byte is not converted as a code point", not direct, site(RT, f.node["sp"]),
+           "string(s[i]) on the byte itself" if direct else "the byte is wrapped (slice / substring) before the conversion",
+           witness="rebuilding \"\u00e9\" (bytes C3 A9) with the string_len / string_get loop of 068_lisp_interp gives a 4-byte string that prints as `Ã©`")
+
+
 def run(run, model):
     run.try_rule(r10_12, model)
     run.try_rule(r10_13, model)
+    run.try_rule(r10_14, model)
     run.try_rule(r10_6, model)
     run.try_rule(r10_7, model)
     run.try_rule(r10_8, model)
